@@ -11,10 +11,10 @@ import (
 const rounderRound = "(Rounder).Round"
 
 func init() {
-	register(&Rule{ID: "C01.R3", Min: 12,
+	register(&Rule{ID: "C01.R3", Min: 15,
 		Text: "single rounding: in the single-rounding operations no path contains two calls that reach Rounder.Round, every path that computes the destination coefficient arithmetically passes one before a result-delivering return, and Rounder.Round's subnormal early return cannot reach its own digit-discarding division",
 		Run:  ruleSingleRounding})
-	register(&Rule{ID: "C01.R4", Min: 3,
+	register(&Rule{ID: "C01.R4", Min: 1,
 		Text: "Precision 0 means exact: in Rounder.Round the digit-discarding division is unreachable on the edge disableIfPrecisionZero ∧ c.Precision == 0, and only quantize passes disableIfPrecisionZero=false",
 		Run:  rulePrecisionZero})
 }
